@@ -1421,7 +1421,7 @@ int_value :
         $$ = int(n)
     }
     | token_string {
-        s := trimQuotes($1)
+        s := tokenString($1)
         n, err := strconv.ParseInt(s, 10, 32)
         if err != nil || n < 0 {
             yylex.Error(fmt.Sprintf("not a valid number for min elements %s", $1))
